@@ -109,7 +109,24 @@ inline void fw_build(FwConfig& c, Asm& a) {
         a.w(op::INC_A0);
         a.w(op::DEC_A1);
     }
-    if (c.main_kind == 1) {
+    if (c.main_kind == 5 || c.main_kind == 6) {
+        // a conditional self-branch that is NOT taken (the condition is false), followed by observable work, then the idle
+        // loop proper; main 6 ends in a conditional self-branch that IS taken (an idle loop with a condition)
+        a.w(op::CLR_A0);                       // a0 = 0: zero flag set
+        a.brr(-1, 2);                          // brr -1, neq: not taken
+        for (int i = 0; i < 3; ++i)
+            a.w(op::INC_A0);
+        a.w(op::INC_A1);
+        a.brr(-1, 1);                          // brr -1, eq: not taken any more (a0 != 0)
+        a.w(op::INC_A0);
+    }
+    if (c.main_kind == 6) {
+        a.w(op::CLR_B0);                       // zero flag set again
+        c.idle_addr = a.at;
+        a.brr(-1, 1);                          // brr -1, eq: taken -> idles
+        a.w(op::INC_A0);
+        a.idle();
+    } else if (c.main_kind == 1) {
         a.w(op::INC_A0);
         a.brr(-2);
         c.idle_addr = 0xFFFFFFFF;
